@@ -14,8 +14,8 @@ RULE = ("every shipped compartmented model (SIR, SIS, SIRS, SEIR, both fixed-rec
         "current edge to a currently infectious neighbour, infection rate = pInfect x #S-I edges, exact recovery delay of the fixed-recovery "
         "variants, results = true counts, clean halting. non-trivial = run with >= 3 events; distinct = distinct spec")
 PARTIAL = ["SIvR / Vaccinate: their handlers are modelled and replayed (with named instances) and the vaccine clauses are theorems about the SIvR action "
-           "(vaccine_holds, vaccine_void, unvaccinated_as_sir); the partition / arrow theorems (handler_partition, event_arrow) are stated for the "
-           "action scripts of the other shipped models and do not quantify over the SIvR action",
+           "(vaccine_holds, vaccine_void, unvaccinated_as_sir); handler_partition (partition kept) covers the SIvR / Vaccinate actions too; "
+           "event_arrow is stated for the SIR-style action scripts",
            "named instances inside sequences are exercised under C11"]
 
 generated_lean = c01.generated_lean
